@@ -16,7 +16,7 @@ func init() {
 		"(R12a) each per-target goroutine puts exactly one result into the collection on every path; (R12b) collection capacity, number of goroutines and number of results awaited are the same quantity; "+
 		"(R12c) every queue entry's callback is answered exactly once with the lock balanced; (R12d) a registered pending call is always unregistered (reply consumed or deleted) before RunCommand returns; "+
 		"(R12e) replies are matched by (command id, target) and consumed atomically, the response stored before completion is signalled; (R12f) a missing reply becomes an error response for that target; "+
-		"(R12g) a refused enqueue is never ignored. Does not decide timing, late or duplicate delivery orders.", runC12)
+		"(R12g) a refused enqueue is never ignored; (R12h) the per-target copy of a command keeps the command's id (the attribution key) and its response timeout, and addresses exactly the one target; RunCommand waits for the timeout of the command it was given. Does not decide timing, late or duplicate delivery orders.", runC12)
 }
 
 func runC12(c *an.Ctx) {
@@ -26,6 +26,7 @@ func runC12(c *an.Ctx) {
 	r12e(c)
 	r12f(c)
 	r12g(c)
+	r12h(c)
 }
 
 const ccPkg = "core/controlcommands"
@@ -417,5 +418,120 @@ func r12g(c *an.Ctx) {
 		}
 		c.Ob("Enqueue-result|"+name, s.Call.Pos(), ok,
 			"the result of Enqueue is discarded: when the queue refuses the command nobody will ever answer the callback channel and the caller waits forever on it")
+	}
+}
+
+// r12h: the per-target copy made by MakeSingleTarget is the command RunCommand registers and waits for: it must carry
+// the original's id (replies are attributed by it) and response timeout (the command completes within it).
+func r12h(c *an.Ctx) {
+	c.Rule("R12h", "MakeSingleTarget: the copy's Id and ResponseTimeout are the original's, its target list is the one receiver; the typed wrappers embed the base copy; RunCommand's timer is the command's GetResponseTimeout()", 4)
+	fn := c.MustFn(ccPkg, "MesosCommandBase.MakeSingleTarget")
+	if fn != nil {
+		c.Subject()
+		key := "(*core/controlcommands.MesosCommandBase).MakeSingleTarget"
+		recv := fn.Params[0]
+		// the object returned on the success path: the value stored into / returned as result 0 that is not nil
+		var obj ssa.Value
+		for _, r := range an.Returns(fn) {
+			v := an.Strip(an.RetVal(r, 0))
+			collect := func(v ssa.Value) {
+				v = an.Strip(v)
+				if mi, ok := v.(*ssa.MakeInterface); ok {
+					v = an.Strip(mi.X)
+				}
+				switch v.(type) {
+				case *ssa.Alloc, *ssa.Call:
+					obj = v
+				}
+			}
+			if p, ok := v.(*ssa.Phi); ok {
+				for _, e := range p.Edges {
+					collect(e)
+				}
+			} else {
+				collect(v)
+			}
+		}
+		if obj == nil {
+			c.Ob(key+"|copy-resolved", fn.Pos(), false, "cannot resolve the object returned by MakeSingleTarget")
+		} else {
+			for _, fld := range []string{"Id", "ResponseTimeout"} {
+				// last store into obj.<fld>
+				var val ssa.Value
+				n := 0
+				if obj.Referrers() != nil {
+					for _, r := range *obj.Referrers() {
+						fa, ok := r.(*ssa.FieldAddr)
+						if !ok || fa.Referrers() == nil || an.FieldOf(fa) == nil || an.FieldOf(fa).Name() != fld {
+							continue
+						}
+						for _, rr := range *fa.Referrers() {
+							if st, ok := rr.(*ssa.Store); ok && st.Addr == ssa.Value(fa) {
+								n++
+								val = st.Val
+							}
+						}
+					}
+				}
+				ok := false
+				if n == 1 && val != nil {
+					if f := an.FieldOf(val); f != nil && f.Name() == fld && an.FieldBase(val) == ssa.Value(recv) {
+						ok = true
+					}
+				}
+				why := "replies are attributed by command id: a copy with another id never receives its reply"
+				if fld == "ResponseTimeout" {
+					why = "RunCommand waits for the copy's timeout: a copy without the original's timeout makes the command complete late (or time out early)"
+				}
+				c.Ob(key+"|copy-keeps-"+fld, fn.Pos(), ok, "the per-target copy must take %s from the command it is made from (%d assignment(s) found); %s", fld, n, why)
+			}
+		}
+	}
+	// wrappers embed the base copy
+	for _, w := range []string{"MesosCommand_Transition", "MesosCommand_TriggerHook"} {
+		wf := c.MustFn(ccPkg, w+".MakeSingleTarget")
+		if wf == nil {
+			continue
+		}
+		c.Subject()
+		base := an.CallsNamed(wf, "(*core/controlcommands.MesosCommandBase).MakeSingleTarget")
+		ok := false
+		if len(base) == 1 {
+			// the embedded MesosCommandBase of the result is a copy of what the base call returned
+			an.Instrs(wf, func(in ssa.Instruction) {
+				st, isSt := in.(*ssa.Store)
+				if !isSt {
+					return
+				}
+				if f := an.FieldOf(st.Addr); f == nil || f.Name() != "MesosCommandBase" {
+					return
+				}
+				if an.DerivesFrom(st.Val, base[0].Value()) {
+					ok = true
+				}
+			})
+		}
+		c.Ob("(*core/controlcommands."+w+").MakeSingleTarget|embeds-base-copy", wf.Pos(), ok, "the typed per-target copy must embed the copy made by MesosCommandBase.MakeSingleTarget (which carries id, timeout and the single target)")
+	}
+	// RunCommand: the timer is the command's own timeout
+	if rc := c.MustFn(ccPkg, "Servent.RunCommand"); rc != nil {
+		c.Subject()
+		ok, n := true, 0
+		for _, ci := range an.Calls(rc, func(nm string, _ ssa.CallInstruction) bool { return nm == "time.After" || nm == "time.NewTimer" }) {
+			n++
+			from := false
+			for _, l := range an.BackSlice(ci.Common().Args[0], an.SliceOpts{LeafCall: func(nm string, _ *ssa.Call) bool { return strings.HasSuffix(nm, ").GetResponseTimeout") }}) {
+				if l.Kind == "call" {
+					call := l.Val.(*ssa.Call)
+					if _, isParam := an.Strip(an.Args(&call.Call)[0]).(*ssa.Parameter); isParam {
+						from = true
+					}
+				}
+			}
+			if !from {
+				ok = false
+			}
+		}
+		c.Ob("(*core/controlcommands.Servent).RunCommand|waits-command-timeout", rc.Pos(), ok && n > 0, "RunCommand must bound its wait by GetResponseTimeout() of the command it was given (%d timer(s) found)", n)
 	}
 }
